@@ -15,6 +15,7 @@ CONSTANTS
   MaxDup = 0
   MaxCancel = 1
   MaxFault = 0
+  StrictClosed = FALSE
   GenFocus = "none"
   WithHist = FALSE
 INVARIANTS OwnReply
